@@ -149,7 +149,9 @@ func (d *Decorator) DecorateNode(n ast.Node) (dst.Node, error) {
 			d.Filenames[d.Dst.Nodes[v].(*dst.File)] = k
 		}
 	case *ast.File:
-		d.Filenames[out.(*dst.File)] = d.Fset.File(n.Pos()).Name()
+		if tf := d.Fset.File(n.Pos()); tf != nil {
+			d.Filenames[out.(*dst.File)] = tf.Name()
+		}
 	}
 
 	return out, nil
